@@ -246,6 +246,8 @@ def r_entry_sibling(ck: Checker) -> None:
             if isinstance(st, ast.Try):
                 break
             for iff in [n for n in ast.walk(st) if isinstance(n, ast.If)]:
+                if not any(isinstance(x, ast.Name) and x.id == p0 for x in ast.walk(iff.test)):
+                    continue  # decided on something computed from the text (a compile step in a helper), not on the text itself
                 for r in [x for x in walk_body(iff.body) if isinstance(x, ast.Return) and isinstance(x.value, ast.Tuple) and x.value.elts]:
                     first = x_ = r.value.elts[0]
                     if isinstance(first, ast.Constant) and first.value in (None, False):
